@@ -7,6 +7,11 @@
 //   beg | nxt | der    it = h->begin() | ++it | read *it            (nxt/der/erc at end() are no-ops)
 //   pf=k pb=k ef=k eb=k   push_front / push_back / emplace_front / emplace_back of value k (write handle)
 //   pf=k! ...             the element's move/copy into the node throws (obj only)
+//   pf=k!n ...            the allocation of the node fails (the allocator throws)
+//   beg!z pf=k!z ...      the allocation of a log record fails: the registration of a not yet used handle
+//   erc!z ers!z eri=i!z erv=k!z   ... the allocation of the zombie record inside erase
+//                         (`afl N|Z` at the throw, `exc op` when the exception reaches the client; a fault that no
+//                         allocation consumes is disarmed at the end of the op)
 //   erc | ers          it = h->erase(it) | h->erase(it) with the result dropped      (write handle)
 //   all                macro: for (it = begin; it != end; ++it) read *it        -> beg,(der,nxt)*
 //   eri=i              macro: erase the i-th element (found by traversal)       -> beg,nxt^i,erc
@@ -111,6 +116,8 @@ struct ElemThrow: std::runtime_error {
 };
 static std::set<const void*> g_live_elems;
 static bool g_throw_in_node = false;  // next construction of an Obj inside an arena block throws
+static char g_fail_alloc = 0;         // 'N' / 'Z': the next allocation of a node / of a record throws AllocFail
+struct AllocFail : std::bad_alloc {};
 
 struct Obj {
     long v;
@@ -180,6 +187,12 @@ struct TAlloc {
             throw std::bad_alloc();
         }
         char k = is_rec<T>::value ? 'Z' : (is_node<T>::value ? 'N' : 'B');
+        if (g_fail_alloc == k) {
+            // injected allocation failure: nothing is allocated
+            g_fail_alloc = 0;
+            verif::emit(std::string("afl ") + k);
+            throw AllocFail();
+        }
         Block b{g_arena + g_used, n * sizeof(T), k, g_count[int(k)]++, B_ALLOC};
         g_used += sz;
         g_blocks.push_back(b);
@@ -353,10 +366,23 @@ struct Runner {
             name = op.substr(0, eq);
             arg = op.substr(eq + 1);
         }
-        bool thr = !arg.empty() && arg.back() == '!';
-        if (thr) {
-            arg.pop_back();
+        // fault suffix: `!` element constructor throws, `!n` node allocation fails, `!z` record allocation fails
+        std::string fault;
+        bool faulty = false;
+        {
+            std::string& w = arg.empty() ? name : arg;
+            auto bang = w.find('!');
+            if (bang != std::string::npos) {
+                faulty = true;
+                fault = w.substr(bang + 1);
+                w = w.substr(0, bang);
+            }
         }
+        bool thr = faulty && fault.empty();
+        struct Arm {
+            explicit Arm(const std::string& f) { g_fail_alloc = f == "n" ? 'N' : (f == "z" ? 'Z' : 0); }
+            ~Arm() { g_fail_alloc = 0; }
+        } arm(fault);
         bool has = t.rh || t.wh;
         if (name == "lr" || name == "lw") {
             if (has) {
@@ -396,13 +422,17 @@ struct Runner {
         } else if (name == "beg") {
             CallScope c(op);
             unsigned v = t.variant++ % 2U;
-            if (t.rh) {
-                t.cit = (v == 0U) ? (*t.rh)->begin() : (**t.rh).begin();
-            } else {
-                t.wit = (v == 0U) ? (*t.wh)->begin() : (**t.wh).begin();
+            try {
+                if (t.rh) {
+                    t.cit = (v == 0U) ? (*t.rh)->begin() : (**t.rh).begin();
+                } else {
+                    t.wit = (v == 0U) ? (*t.wh)->begin() : (**t.wh).begin();
+                }
+                t.has_it = true;
+                c.ret();
+            } catch (const AllocFail&) {
+                verif::emit("exc " + op);  // the registration failed: the handle is still unused, the iterator unchanged
             }
-            t.has_it = true;
-            c.ret();
         } else if (name == "nxt") {
             if (!t.has_it || at_end(t, L)) {
                 return;
@@ -422,14 +452,18 @@ struct Runner {
                 return;
             }
             CallScope c(op);
-            if (name == "erc") {
-                t.wit = (*t.wh)->erase(t.wit);
-            } else {
-                CIt pos(t.wit);
-                WIt same(pos);  // the (private) const_iterator -> iterator conversion
-                (*t.wh)->erase(same);  // result dropped: the iterator stays on the erased element
+            try {
+                if (name == "erc") {
+                    t.wit = (*t.wh)->erase(t.wit);
+                } else {
+                    CIt pos(t.wit);
+                    WIt same(pos);  // the (private) const_iterator -> iterator conversion
+                    (*t.wh)->erase(same);  // result dropped: the iterator stays on the erased element
+                }
+                c.ret();
+            } catch (const AllocFail&) {
+                verif::emit("exc " + op);
             }
-            c.ret();
         } else if (name == "pf" || name == "pb" || name == "ef" || name == "eb") {
             if (!t.wh) {
                 verif::fail("client-error: push without write handle");
@@ -461,6 +495,8 @@ struct Runner {
                 c.ret();
             } catch (const ElemThrow&) {
                 verif::emit("exc " + op);
+            } catch (const AllocFail&) {
+                verif::emit("exc " + op);
             }
             g_throw_in_node = false;
         } else {
@@ -477,11 +513,19 @@ struct Runner {
             name = op.substr(0, eq);
             arg = op.substr(eq + 1);
         }
+        std::string fault;  // `eri=i!z` / `erv=k!z`: the fault goes to the macro's erase
+        {
+            auto bang = arg.find('!');
+            if (bang != std::string::npos) {
+                fault = arg.substr(bang);
+                arg = arg.substr(0, bang);
+            }
+        }
         if (name == "all") {
             verif::emit("mac " + op);
             std::string seen;
             prim(L, t, "beg");
-            while (!at_end(t, L)) {
+            while (t.has_it && !at_end(t, L)) {
                 long v = 0;
                 {
                     CallScope c("der");
@@ -496,16 +540,16 @@ struct Runner {
             verif::emit("mac " + op);
             int i = atoi(arg.c_str());
             prim(L, t, "beg");
-            for (int k = 0; k < i && !at_end(t, L); ++k) {
+            for (int k = 0; k < i && t.has_it && !at_end(t, L); ++k) {
                 prim(L, t, "nxt");
             }
-            prim(L, t, "erc");
+            prim(L, t, "erc" + fault);
             verif::emit("mend " + op);
         } else if (name == "erv") {
             verif::emit("mac " + op);
             long want = atol(arg.c_str());
             prim(L, t, "beg");
-            while (!at_end(t, L)) {
+            while (t.has_it && !at_end(t, L)) {
                 long v = 0;
                 {
                     CallScope c("der");
@@ -513,7 +557,7 @@ struct Runner {
                     c.ret(std::to_string(v));
                 }
                 if (v == want) {
-                    prim(L, t, "erc");
+                    prim(L, t, "erc" + fault);
                     break;
                 }
                 prim(L, t, "nxt");
